@@ -321,7 +321,7 @@ theorem renderAllTSOS_eq_trace (c : Cfg V) (objs : List (ObjItemTS V)) (dss : Li
     (hoas : List (HoaItemTS V)) (parts : List (List (List Rat))) :
     renderAllTSOS c objs dss hoas parts =
       match RStateTSOS.init c objs dss hoas with
-      | .error e => .error (.track e)
+      | .error e => .error (.base (.track e))
       | .ok st0 => traceResult (renderTraceTSOS c st0 parts) := by
   simp only [renderAllTSOS]
   cases RStateTSOS.init c objs dss hoas with
